@@ -64,6 +64,20 @@ def known(T: Types, rec_term, i):
     return MapT(ID, T.Record).opt.is_some(z3.Select(rec_term, i))
 
 
+def id_set(T: Types, invs_term):
+    """{v.invocation_id | v in the list} as a set term (explicit for literal lists)."""
+    lit = ops._literal_elems(invs_term)
+    if lit is not None:
+        s = SetT(ID).empty()
+        for v in lit:
+            s = z3.Store(s, T.Invocation.get(v, "invocation_id"), True)
+        return s
+    i = z3.Const(fresh_name("isi"), ID.sort())
+    v = z3.Const(fresh_name("isv"), T.Invocation.sort())
+    el = ops.seq_elems(invs_term, T.Invocation.sort())
+    return z3.Lambda([i], z3.Exists([v], z3.And(z3.Select(el, v), T.Invocation.get(v, "invocation_id") == i)))
+
+
 def add_world(T: Types, reg: Registry, orch_cls=None):
     """Register App / Orchestrator / Broker / StateBackend / Trigger / BlockingControl abstract shapes and contracts."""
     if "Orchestrator" in reg.shapes:
@@ -157,6 +171,7 @@ def add_world(T: Types, reg: Registry, orch_cls=None):
         defaults={"runner_id": lambda eng, st: NONE},
         cases=[Case("registered", ensures=[
             ("REGISTERED", lambda c: T.Record.get(c.result, "status") == T.S("REGISTERED")),
+            ("registered-by", lambda c: T.Record.get(c.result, "runner_id") == c.arg("runner_id")),
             ("exactly-these", lambda c: _registered(T, c)),
         ])], **A))
     reg.add(Contract(
@@ -231,14 +246,9 @@ def add_world(T: Types, reg: Registry, orch_cls=None):
 
     def route_many(c):
         i = z3.Const(fresh_name("ri"), ID.sort())
-        k, kk = z3.Int(fresh_name("rk")), z3.Int(fresh_name("rkk"))
-        ids = c.arg("invocation_ids")
-        n = z3.Length(ids)
-        return z3.And(
-            z3.ForAll([i], z3.Select(c.f("queue"), i) >= z3.Select(c.old("queue"), i)),
-            z3.ForAll([k], z3.Implies(z3.And(k >= 0, k < n), z3.Select(c.f("queue"), ids[k]) >= z3.Select(c.old("queue"), ids[k]) + 1)),
-            z3.ForAll([i], z3.Implies(z3.Not(z3.Exists([kk], z3.And(kk >= 0, kk < n, ids[kk] == i))),
-                                      z3.Select(c.f("queue"), i) == z3.Select(c.old("queue"), i))))
+        S = ops.seq_elems(c.arg("invocation_ids"), ID.sort())
+        return z3.ForAll([i], z3.If(z3.Select(S, i), z3.Select(c.f("queue"), i) >= z3.Select(c.old("queue"), i) + 1,
+                                    z3.Select(c.f("queue"), i) == z3.Select(c.old("queue"), i)))
     reg.add(Contract(key="Broker.route_invocations", shape="Broker", params={"invocation_ids": QT}, frame=["queue"],
                      cases=[Case("append-all", ensures=[("at-least-one-more-message-per-listed-id-others-unchanged", route_many)])], **A))
     reg.add(Contract(key="Broker.retrieve_invocation", shape="Broker", params={}, result=OID, frame=["queue"], cases=[
@@ -290,37 +300,22 @@ def add_world(T: Types, reg: Registry, orch_cls=None):
 
 
 def _registered(T, c):
-    k = z3.Int(fresh_name("k"))
-    kk = z3.Int(fresh_name("kk"))
     i = z3.Const(fresh_name("i"), ID.sort())
     rec_t = MapT(ID, T.Record)
-    n = z3.Length(c.arg("invocations"))
-    idk = lambda q: T.Invocation.get(c.arg("invocations")[q], "invocation_id")
-    return z3.And(
-        z3.ForAll([k], z3.Implies(z3.And(k >= 0, k < n), z3.Select(c.f("rec"), idk(k)) == z3.If(
-            rec_t.opt.is_some(z3.Select(c.old("rec"), idk(k))), z3.Select(c.old("rec"), idk(k)), rec_t.opt.some(c.result)))),
-        z3.ForAll([i], z3.Implies(z3.Not(z3.Exists([kk], z3.And(kk >= 0, kk < n, idk(kk) == i))),
-                                  z3.Select(c.f("rec"), i) == z3.Select(c.old("rec"), i))))
+    S = id_set(T, c.arg("invocations"))
+    return z3.ForAll([i], z3.Select(c.f("rec"), i) == z3.If(
+        z3.And(z3.Select(S, i), z3.Not(rec_t.opt.is_some(z3.Select(c.old("rec"), i)))), rec_t.opt.some(c.result), z3.Select(c.old("rec"), i)))
 
 
 def _hist_many(T, c, hist_get):
     hist_t = T.hist_t
-    k = z3.Int(fresh_name("k"))
-    kk = z3.Int(fresh_name("kk"))
     i = z3.Const(fresh_name("i"), ID.sort())
-    n = z3.Length(c.arg("invocations"))
-    idk = lambda q: T.Invocation.get(c.arg("invocations")[q], "invocation_id")
-    return z3.And(
-        z3.ForAll([k], z3.Implies(z3.And(k >= 0, k < n), z3.Select(c.f("hist"), idk(k)) == hist_t.opt.some(
-            z3.Concat(hist_get(c.old("hist"), idk(k)), z3.Unit(c.arg("status_record")))))),
-        z3.ForAll([i], z3.Implies(z3.Not(z3.Exists([kk], z3.And(kk >= 0, kk < n, idk(kk) == i))),
-                                  z3.Select(c.f("hist"), i) == z3.Select(c.old("hist"), i))))
+    S = id_set(T, c.arg("invocations"))
+    return z3.ForAll([i], z3.Select(c.f("hist"), i) == z3.If(
+        z3.Select(S, i), hist_t.opt.some(z3.Concat(hist_get(c.old("hist"), i), z3.Unit(c.arg("status_record")))), z3.Select(c.old("hist"), i)))
 
 
 def _stored_many(T, c):
     i = z3.Const(fresh_name("i"), ID.sort())
-    kk = z3.Int(fresh_name("kk"))
-    n = z3.Length(c.arg("invocations"))
-    idk = lambda q: T.Invocation.get(c.arg("invocations")[q], "invocation_id")
-    return z3.ForAll([i], z3.Select(c.f("stored"), i) == z3.Or(z3.Select(c.old("stored"), i),
-                                                                z3.Exists([kk], z3.And(kk >= 0, kk < n, idk(kk) == i))))
+    S = id_set(T, c.arg("invocations"))
+    return z3.ForAll([i], z3.Select(c.f("stored"), i) == z3.Or(z3.Select(c.old("stored"), i), z3.Select(S, i)))
